@@ -16,11 +16,18 @@ def run(ctx):
         consts.update({"SigForms": '{"full", "nov", "rflip", "empty"}'})
     r = ctx.model_check("net", "MC_Handshake", "MC_Handshake.cfg", constants=consts, coverage=True,
                         timeout=ctx.pick(600, 3000))
-    ctx.check_coverage(r, ["Start", "ReplayTranscript", "ToAcceptor", "ToDialer", "OtherIds", "Misuse", "FreshMisuse"])
+    ctx.check_coverage(r, ["Start", "ReplayTranscript", "ToAcceptor", "ToDialer", "OtherIds", "Misuse", "FreshMisuse", "Reflect"])
     if not ctx.quick():
         r2 = ctx.model_check("net", "MC_Handshake", "MC_Handshake.cfg", constants={"MaxOps": 9, "Sessions": "{1, 2, 4}"},
                              coverage=True, timeout=3000, label="all encodings")
         ctx.check_coverage(r2, ["Start", "ReplayTranscript", "ToAcceptor", "ToDialer"])
+    # probe: a model of a dialer WITHOUT the self-identity test must violate NoIdentityWithoutKey (reflection attack)
+    rp = ctx.tlc("net", "MC_Handshake", "MC_Handshake.cfg", expect_violation=True, count=False, timeout=900, label="reflection probe",
+                 constants={"DialerSelfCheck": "FALSE", "Sessions": "{1, 2}", "MaxOps": 7,
+                            "SigForms": '{"full", "rflip", "empty"}', "PkForms": '{"comp", "bad"}'})
+    if rp.violation != "NoIdentityWithoutKey":
+        from vlib import MachineryError
+        raise MachineryError("probe: the model without the dialer self check violates %s, expected NoIdentityWithoutKey" % rp.violation)
     ctx.exhaustive = True
     # 2. behaviours: every run of <= 3 events (all single deliveries after one or two key exchanges) + random walks
     #    (quick: 4 of the 7 signature encodings and 2 of the 3 key encodings in the BFS part; the walks use all)
@@ -61,6 +68,10 @@ def run(ctx):
     if nchurn < 20:
         raise MachineryError("vacuity: OtherIds after an accepted connection generated only %d times" % nchurn)
     ctx.notes.append("runs with 150 foreign peer ids created after an identity was assigned: %d" % nchurn)
+    nrefl = sum(1 for b in allb if any(st["op"] == "reflect" for st in b))
+    if nrefl < 10:
+        raise MachineryError("vacuity: the reflection attack was generated only %d times" % nrefl)
+    ctx.notes.append("runs with a reflected SignatureRequest: %d" % nrefl)
     nfull = sum(1 for b in allb if full_replay(b))
     if nfull < 2:
         raise MachineryError("vacuity: transcript replay generated only %d times" % nfull)
@@ -87,8 +98,8 @@ def run(ctx):
                      "are still signatures by that key over that secret and are accepted (modelled so)",
                      "handlers are driven synchronously (one message at a time per connection); the TLS secure suite "
                      "is not exercised (plaintext and ECDHE with the three AEAD suites are)",
-                     "the dialer side has no self-identity test: a reflected SignatureRequest makes the dialer accept "
-                     "its own identity (it is a signature by that key over this session's secret; modelled so)"])
+                     "both sides must refuse their own identity: a peer that echoes the dialer's SignatureRequest has not "
+                     "proved possession of any key (spec: error:self on the dialer side too)"])
 
 
 def rerun(ctx):
